@@ -32,6 +32,7 @@ type switchboard struct {
 
 	conns      sync.Map
 	connsCount uint32
+	addConnM   sync.Mutex
 	randPool   sync.Pool
 
 	broken uint32
@@ -54,9 +55,15 @@ func makeSwitchboard(sesh *Session) *switchboard {
 var errBrokenSwitchboard = errors.New("the switchboard is broken")
 
 func (sb *switchboard) addConn(conn net.Conn) {
-	connId := atomic.AddUint32(&sb.connsCount, 1) - 1
-	common.VerifPoint("addConn.betweenCountAndStore")
+	// The conn must be stored before the count that pickRandConn draws from is published: a sender
+	// that picked the new id before the Store found nothing there, declared the switchboard broken
+	// and tore the healthy session down. addConnM keeps concurrent adders from claiming the same id.
+	sb.addConnM.Lock()
+	connId := atomic.LoadUint32(&sb.connsCount)
 	sb.conns.Store(connId, conn)
+	common.VerifPoint("addConn.betweenCountAndStore")
+	atomic.StoreUint32(&sb.connsCount, connId+1)
+	sb.addConnM.Unlock()
 	go sb.deplex(conn)
 }
 
